@@ -1,6 +1,5 @@
 //@ variant: hit HIT=1 NC=9 X=-DXV_ATR_PLAIN
 //@ variant: miss HIT=0 NC=3 X=-DXV_ATR_PLAIN
-//@ variant: strict HIT=1 NC=9 X=-DXV_ATR_STRICT
 //@ tu: libxcm/core/attr_tree.c libxcm/core/attr_node.c libxcm/core/attr_path.c
 //@ enforce: attr_tree_get_value
 //@ replace: attr_path_parse attr_path_destroy node_lookup log_attr_str_value xv_atr_setter xv_atr_getter
